@@ -434,6 +434,9 @@ def k_c16(ctx):
         nproc = ctx.n(6, 20)
         for li in range(ctx.n(10, 100)):
             ls = big_ledger(rng, rng.randint(4, 12), rng.randint(2, 8)) if li % 4 else gen.gen_ledger(rng, nsec=3, nlines=14)
+            if li == 1:
+                # disposals in several tax years the exemption table does not cover: the command fails, and what it says must not depend on hash order either
+                ls = [Line(datetime.date(2008, 5, 1), "OLD", "BUY", "50", "1", "GBP", None)] + [Line(datetime.date(y, 9, 1), "OLD", "SELL", "1", "2", "GBP", None) for y in (2008, 2009, 2010, 2011, 2012, 2027, 2028)]
             wd = os.path.join(root, "l%d" % li); os.makedirs(wd)
             open(os.path.join(wd, "in.cgt"), "w").write(ledger.render(ls))
             open(os.path.join(wd, "tx.json"), "w").write(schwab_export(rng))
@@ -460,6 +463,7 @@ def k_c16(ctx):
                     if k == "pdf" and rc == 0: out = open(os.path.join(wd, "out.pdf"), "rb").read()
                     if k == "convert":
                         out = b"\n".join(l for l in out.split(b"\n") if not l.startswith(b"# Converted: ")) + b"\n--stderr--\n" + err
+                    elif rc != 0: out = out + b"\n--stderr--\n" + err          # a failing command's message is its output
                     outs.add((rc, out))
                 ctx.count("command", k); ctx.count("distinct_outputs_over_%d_processes" % nproc, len(outs))
                 if len(outs) > 1:
